@@ -15,6 +15,8 @@ from .fixtures_mod import NB_FILTERS, DIRS, UNKS
 # filters really give different answers (a key that forgets the filter is then visible); NON vs NBR
 # differ on links of unknown type
 KEYS_QUICK = [(d, u, f) for d in ("FWD", "ANY", "BWD") for (u, f) in (("NBR", "none"), ("NBR", "selv"), ("NON", "none"))]
+# two filters that are distinct objects with the same code and different defaults (FORWARD only)
+KEYS_QUICK += [("FWD", "NBR", "seld0"), ("FWD", "NBR", "seld1")]
 KEYS_FULL = [(d, u, f) for d in ("FWD", "ANY", "BWD") for u in ("NON", "NBR", "ERR")
              for f in ("none", "accept", "selv", "sell")]
 
